@@ -243,6 +243,21 @@ def origin(v):
     return v
 
 
+def conv_chain(v):
+    """([conversion names outermost first], base value)"""
+    names = []
+    for _ in range(64):
+        if isinstance(v, Sym) and isinstance(v.tag, tuple) and v.tag and v.tag[0] == "conv":
+            names.append(v.tag[1])
+            v = v.tag[2]
+            continue
+        if isinstance(v, Ref) and v.frame is None and isinstance(v.val, Cell):
+            v = v.val.v
+            continue
+        break
+    return names, v
+
+
 def same_origin(a, b):
     a, b = origin(a), origin(b)
     if a is b:
@@ -287,6 +302,7 @@ class Engine:
         self.uninterpreted = set()
         self.inlined = set()
         self.const_cache = {}
+        self.opaque_eq_types = {"Method", "StatusCode", "Version"}
 
     # ---------------- path enumeration ----------------
     def explore(self, path, args=None, setup=None):
@@ -536,12 +552,23 @@ class Engine:
             cands = self.idx.find(name)
             if len(cands) == 1:
                 b = self.idx.body(cands[0])
-                if b.nargs == 0 and len(b.blocks) <= 3:
+                if b.nargs == 0 and len(b.blocks) <= 12:
+                    # constant evaluation must not consume path decisions: run it in a private decision context
+                    saved = (self.decisions, self.alternatives, self.prefix, list(self.pc), list(self.events))
+                    self.decisions, self.alternatives, self.prefix = [], [], []
                     try:
-                        saved = (self.decisions, self.alternatives, self.prefix)
                         val = self.run_body(b, [], depth=self.max_depth)
+                        if self.alternatives:
+                            val = None
                     except (EndPath, Inconclusive, MirError):
                         val = None
+                    self.decisions, self.alternatives, self.prefix = saved[0], saved[1], saved[2]
+                    self.events = saved[4]
+                    if len(self.pc) != len(saved[3]):
+                        self.pc = saved[3]
+                        self.solver = z3.Solver()
+                        for c in self.pc:
+                            self.solver.add(c)
         if val is None:
             # enum unit variant written as a constant?
             val = ConstV(name)
@@ -940,6 +967,11 @@ class Engine:
                 return Scalar(e if m.group(3) == "eq" else z3.Not(e))
             # field-less enum equality: compare discriminants when a derived impl exists in the dump
             tn = base_type_name(lt)
+            if tn in self.opaque_eq_types:
+                oa, ob = self.opaque_id(la), self.opaque_id(lb)
+                if oa is not None and ob is not None:
+                    e = oa == ob
+                    return Scalar(e if m.group(3) == "eq" else z3.Not(e))
             if tn in self.enums:
                 da, db = self.discr_of(la), self.discr_of(lb)
                 if da is not None and db is not None:
@@ -986,6 +1018,20 @@ class Engine:
         if c in ("std::fmt::format", "format", "alloc::fmt::format") or c.endswith("fmt::format"):
             return Agg("fmt::Formatted", [self.peel(a) for a in args], kind="struct")
         return NotImplemented
+
+    def opaque_id(self, v):
+        """Integer identity of a value of an opaque value type (http::Method, StatusCode, ...): distinct named
+        constants are distinct integers, a symbolic value is an integer variable."""
+        v = self.peel(v)
+        o = origin(v)
+        if isinstance(o, ConstV):
+            key = ("opaque", o.text.split("::")[-1])
+            if key not in self.const_cache:
+                self.const_cache[key] = z3.IntVal(1000 + len([k for k in self.const_cache if isinstance(k, tuple) and k[0] == "opaque"]))
+            return self.const_cache[key]
+        if isinstance(o, Sym):
+            return o.discr()
+        return None
 
     def peel(self, v):
         for _ in range(6):
